@@ -29,20 +29,19 @@ BATCH = 20000
 
 # ---------------------------------------------------------------------------------------------- helpers
 def load_own_findings(ctx):
-    """findings.d/C02.json is this check's fragment of known-findings.json (merged by the coordinator);
-    honour it directly so that the check behaves the same before and after the merge."""
-    path = os.path.join(lib.VERIF, "findings.d", "C02.json")
+    """findings.d/C02.json is this check's fragment of known-findings.json (merged / swapped by the coordinator);
+    honour it directly so that the check behaves the same before and after the merge. An entry of the fragment
+    overrides the entry with the same key in known-findings.json (status fixed suppresses nothing).
+    VERIF_C02_FINDINGS=<file> reads another fragment instead (used to try findings.d/C02.json.after-fix)."""
+    path = os.environ.get("VERIF_C02_FINDINGS") or os.path.join(lib.VERIF, "findings.d", "C02.json")
     try:
         with open(path) as f:
             mine = [e for e in json.load(f) if e.get("property") == ctx.prop]
     except FileNotFoundError:
         mine = []
-    known = list(ctx.known())
-    have = {(k.get("property"), k.get("key")) for k in known}
-    for e in mine:
-        if (e.get("property"), e.get("key")) not in have:
-            known.append(e)
-    ctx._known = known
+    keys = {e.get("key") for e in mine}
+    known = [k for k in ctx.known() if not (k.get("property") == ctx.prop and k.get("key") in keys)]
+    ctx._known = known + mine
 
 
 def untag(v):
